@@ -1,15 +1,17 @@
 (* C17 driver: runs the extracted ExportImport model and the declarative oracles on the harness
    cases.  Case syntax: see harness/zz_verif/c17.go.
 
-   When the repair of the second-start defect (build/proposed-fixes/C17-1.diff) is committed to the
-   service, the model to compare against is [startup_fixed]: set use_fixed_model to true (and move
-   the finding to status "fixed"). *)
+   The model compared with the implementation is [startup], the code as it is.  To evaluate the
+   proposed repair (build/proposed-fixes/C17-1.diff) on a patched tree run
+     VERIF_C17_MODEL=fixed VERIF_REPO=<patched tree> bin/check C17
+   which compares against [startup_fixed]; once the repair is committed to the service make "fixed"
+   the default here and move the finding to status "fixed". *)
 open Vutil
 module S = Stdlib.String
 module L = Stdlib.List
 module EI = ExportImport
 
-let use_fixed_model = false
+let use_fixed_model = (Sys.getenv_opt "VERIF_C17_MODEL" = Some "fixed")
 
 (* ---- Coq strings ---- *)
 let ascii_of_char (c : char) : Ascii.ascii =
